@@ -366,9 +366,9 @@ def r3_filename(report, repo):
 
 
 def run(report, repo):
-  r1_publish_on_success_only(report, repo)
-  r2_order(report, repo)
-  r2b_destination_untouched(report, repo)
-  r3_filename(report, repo)
+  report.guard(r1_publish_on_success_only, report, repo)
+  report.guard(r2_order, report, repo)
+  report.guard(r2b_destination_untouched, report, repo)
+  report.guard(r3_filename, report, repo)
   report.assume('os.rename / shutil.move onto the same file system are atomic; '
                 'process kill between file-system calls is not modelled')
